@@ -126,6 +126,26 @@ def run(ctx):
         if len(t) >= 3 and np.all(np.diff(t) > 0):
             items.append(("gradient", (rf, t)))
             expect.append(np.gradient(rf, t))
+    # ---------------- recovery rate of runs on a single-precision time grid (times read from a float32 file): the plotted rate is the
+    # derivative of the plotted recovery, differenced in double precision (fixed 2026-10, 00d1e29: np.gradient used to get the float32
+    # grid - its weights then do not cancel and the late-time rate drowned in rounding error, 237 of 2000 rates negative)
+    from bluebonnet.flow import IdealReservoir
+    for nt32 in ((2000,) if ctx.quick else (1000, 5000, 20000)):
+        t32 = (np.linspace(0, np.sqrt(11.0), nt32) ** 2).astype(np.float32)
+        res32 = IdealReservoir(30, 100.0, 2000.0, None)
+        res32.simulate(t32.copy())
+        rf32 = np.array(res32.recovery_factor(), float)
+        fig, ax = plt.subplots()
+        with np.errstate(all="ignore"):
+            plotting.plot_recovery_rate(res32, ax=ax)
+        (xr32, yr32), = line_data(ax)
+        plt.close(fig)
+        want32 = np.gradient(rf32, t32.astype(np.float64))
+        ev += 1
+        vis = want32 >= 1e-4           # the part of the curve the helper's axis limits show
+        if not np.allclose(np.asarray(yr32, float)[vis], want32[vis], rtol=1e-6, atol=0) or np.any(np.asarray(yr32, float) < -1e-12):
+            bad("plot_recovery_rate does not draw the time derivative of recovery (run on a float32 time grid)", dict(kind="ideal", nx=30, time_grid="float32, quadratic", nt=nt32),
+                dict(worst_rel_error_in_plotted_window=float(np.abs(np.asarray(yr32, float)[vis] / want32[vis] - 1).max()), negative_rates=int((np.asarray(yr32, float) < 0).sum())))
     # ---------------- production comparison figure
     import pandas as pd
     from lmfit import Parameters
